@@ -407,6 +407,9 @@ def finish(prop, tier, seed, runner, level, rule, trusted, floors=None, extra_co
         reasons.append('unsupported constructs: ' + '; '.join('%s (%d)' % kv for kv in sorted(us.items(), key=lambda kv: -kv[1])[:8]))
     fl = (floors or {})
     decided = sum(1 for r in res if r['status'] in ('ok', 'violation', 'uncompilable'))
+    if len(undecided) > fl.get('max_undecided', 0):
+        ex = undecided[0]
+        reasons.append('%d witness instances undecided (allowed %d), e.g. %s [%s]: %s' % (len(undecided), fl.get('max_undecided', 0), ex.get('id'), ex.get('config'), json.dumps((ex.get('undecided') or [{}])[0])[:400]))
     if decided < fl.get('decided', 1):
         reasons.append('decided witness instances %d below the floor %d' % (decided, fl.get('decided', 1)))
     if n_ok < fl.get('discharged', 1):
